@@ -18,9 +18,19 @@ Oracles
     data of every field / scalar must equal it exactly
     ("final_data_differs_from_invoke_text");
   * static monitor on the two generated texts: same number of actual and
-    dummy arguments, type-compatible, and every kernel argument of the PSy
-    routine maps back (dummy -> actual -> program variable) to the variable
-    the invoke text names at that position.
+    dummy arguments, no dummy twice, one routine per generated call name,
+    type-compatible, and every kernel argument of the PSy routine (incl. the
+    stencil extent of a stencil field) maps back (dummy -> actual -> program
+    variable) to the variable the invoke text names at that position.
+
+Known defects of the pinned tree found by this check are exercised on purpose
+by `danger_anchors()` and by one random program in nine (ONE planted class
+per program, see vf.c24_gen.DANGEROUS); their witnesses carry a mechanism
+string computed from the invoke text alone (hazards_of / label_clashes), the
+proposed KNOWN_FINDINGS entries are in vf/c24_known_findings_proposed.json.
+VF_C24_SELFTEST=alg|psy|drop plants an argument confusion in a scratch copy
+of the generated text (the check must then fire); VF_C24_NPROG=<n> overrides
+the number of random programs.
 """
 import os
 import re
@@ -305,6 +315,10 @@ def run_program(part, desc, cfg, env):
                 part.count("kernel_calls")
                 part.count("kernel_calls:user_kernel" if k.startswith("c24_")
                            else "kernel_calls:builtin")
+                if "R" in I.roles_of(k):
+                    part.count("kernel_calls:builtin_reduction")
+                if "e" in I.roles_of(k):
+                    part.count("kernel_calls:user_kernel_with_stencil_extent")
         for f in desc.get("forms", []):
             part.count("programs_with_form:" + f)
         clashes = label_clashes(parsed)
@@ -339,7 +353,17 @@ def run_program(part, desc, cfg, env):
             part.count("selftest_mutations", nmut)
         witness_base = {
             "config": cname, "x90": x90, "alg": alg, "psy": psy,
-            "invokes": invokes, "desc": desc, "cfg": cfg}
+            "invokes": invokes, "desc": desc, "cfg": cfg,
+            "reproduce": (
+                "python -m vf.run C24 --replay <this file>; or by hand: write "
+                "'x90' to prog.x90 and the files of vf.c24_gen."
+                "kernel_sources() to ./kern, then PSYCLONE_CONFIG=/repo/"
+                "config/psyclone.cfg psyclone -api lfric %s -d kern -oalg "
+                "alg.f90 -opsy psy.f90 prog.x90 and compare the generated "
+                "CALL invoke...(...) with SUBROUTINE invoke...(...); compile "
+                "kernels, vf.c24_gen.UTIL, psy.f90, alg.f90 with gfortran "
+                "-fimplicit-none -fcheck=all against liblfric.a" % (
+                    "-dm" if cfg["dm"] else "-nodm"))}
         # --------------------------------------------------- static monitor
         calls = I.alg_calls(alg)
         routines = I.psy_routines(psy)
@@ -707,6 +731,10 @@ def danger_anchors():
               "forms": ["stencil_extent_struct"], "danger": "extent_struct",
               "steps": [_inv("call invoke(c24_sten_w3_type(f1, f2, state%e, "
                              "n))")]})
+    D.append({"name": "c24_danger_extent_struct2",
+              "forms": ["stencil_extent_struct"], "danger": "extent_struct",
+              "steps": [_inv("call invoke(c24_sten_w3_type(f1, f2, state%n, "
+                             "n))")]})
     D.append({"name": "c24_danger_extent_array",
               "forms": ["stencil_extent_array"], "danger": "extent_array",
               "steps": [_inv("call invoke(c24_sten_w3_type(f1, f2, ea(2), "
@@ -730,10 +758,13 @@ def main(ctx):
     import random
     ctx.rule = (
         "case = one generated LFRic algorithm program (1-4 invokes of 1-4 "
-        "built-ins / probe kernels, arguments repeated across kernel calls, "
-        "case- and blank-varied, array elements indexed by literal / "
-        "parameter / variable, derived-type components, literals, named and "
-        "unnamed invokes) under one configuration (distributed memory off / "
+        "built-ins / probe kernels incl. a stencil kernel whose extent is an "
+        "extra invoke argument, arguments repeated across kernel calls and, "
+        "under different spellings, within one call, case- and blank-varied, "
+        "array elements indexed by literal / parameter / variable, "
+        "derived-type components, literals, named and unnamed invokes; one "
+        "program in nine carries one planted known-dangerous form) under one "
+        "configuration (distributed memory off / "
         "on as rank 0 of 2 / on as 1 rank; COMPUTE_ANNEXED_DOFS); "
         "non-trivial = both generated layers compiled together, the program "
         "ran and at least one field was compared with the interpretation of "
@@ -756,6 +787,8 @@ def main(ctx):
     per_job = 3 if ctx.quick else 13
     if SELFTEST:
         nprog, per_job = 12, 2
+    if os.environ.get("VF_C24_NPROG"):          # development aid
+        nprog = int(os.environ["VF_C24_NPROG"])
     jobs = []
     # anchors: two configurations
     anc = anchors()
